@@ -142,15 +142,54 @@ theorem C05_done_means_all_partial (m : Nat) (items : List Item) (p : Pool) (r :
   | waitingRoom hw => rw [hd] at hw; cases hw
   | failed e he => rw [hok] at he; cases he
 
+/-- the tasks of call `m` that have not handed back their pool slot — in particular every one whose worker has begun
+and not finished, and every one still inside its cancel callback -/
+def Pool.mapActive (p : Pool) (m : Nat) : Nat := p.tasks.countP (fun tk => tk.isMap && tk.req == m && !tk.released)
+
+/-- the tasks of call `m` whose worker coroutine has begun and not finished -/
+def Pool.mapLive (p : Pool) (m : Nat) : Nat := p.tasks.countP (fun tk => tk.isMap && tk.req == m && tk.phase == .inWorker)
+
 /-- **the books of the call's own semaphore balance, for every history**: in every pool of every reachable world
 (any sizes, resizes, cancellations of tasks / groups / everything, failures, flushes, user code in workers, callbacks
 and argument iterators), for every request: `free slots + tasks holding a slot + a slot granted to the waiting
-spawner + the slot the spawner carries while it waits for pool room ≤ num_concurrent` -/
+spawner + the slot the spawner carries while it waits for pool room ≤ num_concurrent` — and **`= num_concurrent` as
+long as the call's spawner has not ended** (a spawner that dies of `PoolIsClosed` with a slot in hand takes the slot
+with it; nothing else ever loses one) -/
 theorem C05_slot_books (base : Nat) (h : History) (i : Nat) (c : Cfg) (p : Pool)
     (hc : ((World.init base).run h).cfgs[i]? = some c) (hp : ((World.init base).run h).pools[i]? = some p)
     (m : Nat) (r : Req) (hr : p.reqs[m]? = some r) :
-    ∃ v, r.mapSem.value = .fin v ∧ v + heldM p.tasks m + grantsL r.mapSem.waiters + r.pend ≤ r.nc :=
-  (mapAll base h i c p hc hp).le m r hr
+    ∃ v, r.mapSem.value = .fin v ∧ v + heldM p.tasks m + grantsL r.mapSem.waiters + r.pend ≤ r.nc ∧
+      (r.outcome = none → v + heldM p.tasks m + grantsL r.mapSem.waiters + r.pend = r.nc) := by
+  obtain ⟨v, hv, h1, h2⟩ := (mapAll base h i c p hc hp).le m r hr
+  exact ⟨v, hv, h1, fun ho => by have := h2 ho; omega⟩
+
+/-- **no lost wake-up on the call's own semaphore, for every history**: if it has a free slot and none is on its way
+to the woken consumer, the consumer is not waiting for one -/
+theorem C05_no_lost_wakeup (base : Nat) (h : History) (i : Nat) (c : Cfg) (p : Pool)
+    (hc : ((World.init base).run h).cfgs[i]? = some c) (hp : ((World.init base).run h).pools[i]? = some p)
+    (m : Nat) (r : Req) (hr : p.reqs[m]? = some r) (v : Nat) (hv : r.mapSem.value = .fin v) (hpos : 0 < v)
+    (hng : grantsL r.mapSem.waiters = 0) : ∀ w ∈ r.mapSem.waiters, w.st ≠ .pending :=
+  (mapAll base h i c p hc hp).wk m r hr v hv hpos hng
+
+/-- **work-conserving, for every history.** In every pool of every reachable world: if the consumer of a map-family
+call is alive and suspended on its own semaphore (then an element is in hand and more may remain, `C05_lazy_all`; it
+is not the pool's size that holds it up), and its waiter entry is still pending with no wake-up on its way (what "the
+loop is idle" means for this semaphore), then **all `num_concurrent` slots of the call are held by tasks of the call
+that have not yet handed theirs back** -/
+theorem C05_work_conserving (base : Nat) (h : History) (i : Nat) (c : Cfg) (p : Pool)
+    (hc : ((World.init base).run h).cfgs[i]? = some c) (hp : ((World.init base).run h).pools[i]? = some p)
+    (m : Nat) (r : Req) (hr : p.reqs[m]? = some r) (hlive : r.outcome = none) (hw : r.frame = .waitMapSem)
+    (hpend : ∃ w ∈ r.mapSem.waiters, w.st = .pending) (hng : grantsL r.mapSem.waiters = 0) :
+    heldM p.tasks m = r.nc := by
+  obtain ⟨v, hv, _, h2⟩ := C05_slot_books base h i c p hc hp m r hr
+  have hp0 : r.pend = 0 := by simp [Req.pend, hw]
+  have hv0 : v = 0 := by
+    rcases Nat.eq_zero_or_pos v with e | e
+    · exact e
+    · obtain ⟨w, hw1, hw2⟩ := hpend
+      exact absurd hw2 (C05_no_lost_wakeup base h i c p hc hp m r hr v hv e hng w hw1)
+  have := h2 hlive
+  omega
 
 /-- **element-wise, in order, lazy — for every history.** In every pool of every reachable world, for every
 map-family request: what has been pulled plus what is left is the whole iterable; every pulled element is a task of
@@ -171,13 +210,6 @@ theorem C05_lazy_all (base : Nat) (h : History) (i : Nat) (c : Cfg) (p : Pool)
 /-- the length of the iterable is what the call was given -/
 theorem C05_n0_is_length (stars : Nat) (g : String) (sp : SpawnSpec) (items : List Item) (nc : Nat) :
     (newReq .map stars g sp 0 items nc).n0 = items.length := by simp [newReq]
-
-/-- the tasks of call `m` that have not handed back their pool slot — in particular every one whose worker has begun
-and not finished, and every one still inside its cancel callback -/
-def Pool.mapActive (p : Pool) (m : Nat) : Nat := p.tasks.countP (fun tk => tk.isMap && tk.req == m && !tk.released)
-
-/-- the tasks of call `m` whose worker coroutine has begun and not finished -/
-def Pool.mapLive (p : Pool) (m : Nat) : Nat := p.tasks.countP (fun tk => tk.isMap && tk.req == m && tk.phase == .inWorker)
 
 /-- **never more than `num_concurrent` at once.** In every pool of every reachable world, for every map-family
 request, the number of its tasks that are running (created and not yet ended — a fortiori the number of its worker
@@ -207,6 +239,25 @@ theorem C05_concurrency_bound (base : Nat) (h : History) (i : Nat) (c : Cfg) (p 
       simp [hmh, hx.1.2]
     omega
 
+/-- … and when none of them is inside a callback or over (each is still in its worker), exactly `num_concurrent`
+workers of the call are live -/
+theorem C05_work_conserving_live (base : Nat) (h : History) (i : Nat) (c : Cfg) (p : Pool)
+    (hc : ((World.init base).run h).cfgs[i]? = some c) (hp : ((World.init base).run h).pools[i]? = some p)
+    (m : Nat) (r : Req) (hr : p.reqs[m]? = some r) (hlive : r.outcome = none) (hw : r.frame = .waitMapSem)
+    (hpend : ∃ w ∈ r.mapSem.waiters, w.st = .pending) (hng : grantsL r.mapSem.waiters = 0)
+    (hq : ∀ tk ∈ p.tasks, tk.mapHeld = true → tk.req = m → tk.isMap = true ∧ tk.phase = .inWorker) :
+    p.mapLive m = r.nc := by
+  have h1 := C05_work_conserving base h i c p hc hp m r hr hlive hw hpend hng
+  have h2 := C05_concurrency_bound base h i c p hc hp m r hr
+  have h3 : heldM p.tasks m ≤ p.mapLive m := by
+    unfold Pool.mapLive heldM
+    apply List.countP_mono_left
+    intro tk hmem hx
+    simp only [Bool.and_eq_true, beq_iff_eq] at hx
+    obtain ⟨a, b⟩ := hq tk hmem hx.1 hx.2
+    simp [a, b, hx.2]
+  omega
+
 /-- `num_concurrent` of a request is what the call was given (`doMap` registers exactly this record), and the call's
 semaphore starts with that many free slots -/
 theorem C05_nc_is_given (stars : Nat) (g : String) (sp : SpawnSpec) (items : List Item) (nc : Nat) :
@@ -227,6 +278,13 @@ example : (((World.init 0).run C05_demo).pools.map fun p =>
   decide +kernel
 example : (((World.init 0).run C05_demo).pools.map fun p => p.reqs.map fun r => (r.skipped, r.frame)) =
     [[(0, MFrame.waitMapSem)]] := by
+  decide +kernel
+
+/-- … which is a state that meets the premises of `C05_work_conserving`: the consumer is alive, its waiter entry
+pending, no wake-up on its way — and indeed both slots are held by tasks of the call -/
+example : (((World.init 0).run C05_demo).pools.map fun p => p.reqs.map fun r =>
+    (r.outcome.isNone, r.mapSem.waiters.map (·.st), grantsL r.mapSem.waiters, heldM p.tasks 0, r.nc)) =
+    [[(true, [WaitSt.pending], 0, 2, 2)]] := by
   decide +kernel
 
 /-! Non-vacuity: `map` over 4 elements with `num_concurrent = 2` on an unbounded pool: two tasks, the third
